@@ -552,6 +552,14 @@ def _run_b(src, fs, N, M, cap, sample=False, always=False):
     for name, fn in (("p", nop), ("pv", nop), ("pc", nop), ("pf", nop), ("d", d), ("mark", mark)):
         ctx.set(name, fn)
     ctx.set("NN", N)
+    counting = S.counting
+    S.counting = False
+    try:
+        ctx.eval(_c07.KEPT_SETUP)       # an earlier evaluation: the built-in methods it took off an array outlive it
+    except Exception:
+        pass                            # (a limit too small even for that: the run below fails likewise)
+    finally:
+        S.counting = counting
     out = run_eval(ctx, src, cap)
     return out, samples, lost[0]
 
@@ -639,7 +647,13 @@ def gen_case_r(seed, i, tier):
     cell = {"stratum": "R", "method": m, "first_use": rng.choice(("runaway", "bounded_then_runaway")),
             "wrap_try": rng.random() < 0.3}
     run, use = R_METHODS[m]
-    first = "GA = [3, 1, 2]; function rq(){ %s return 0; }\n" % run
+    if rng.random() < 0.4:
+        # the method is taken off the array by the runaway evaluation and kept in a global; the
+        # runaway itself is plain recursion (the interpreter that made the method dies with full stacks)
+        cell["kept"] = True
+        run = "return 1 + rq();"
+        use = use.replace("GA.%s(" % m, "KM(")
+    first = "GA = [3, 1, 2]; var KM = GA.%s; function rq(){ %s return 0; }\n" % (m, run)
     if cell["first_use"] == "bounded_then_runaway":
         first += "var n = 0; %s\n" % use
     first += ("try { rq(); } catch (e) { p('c'); }" if cell["wrap_try"] else "rq();") + "\n'unreachable';"
@@ -695,7 +709,8 @@ def execute(case):
 def features(case, res=None):
     if case["cell"]["stratum"] == "R":
         c = case["cell"]
-        return sorted(["stratum:R", "method:" + c["method"], "first:" + c["first_use"]] + (["wrap_try"] if c["wrap_try"] else []))
+        return sorted(["stratum:R", "method:" + c["method"], "first:" + c["first_use"]] + (["wrap_try"] if c["wrap_try"] else [])
+                      + (["kept"] if c.get("kept") else []))
     if case["cell"]["stratum"] == "B":
         c = {"prog": case["prog"], "schedules": [case["faults"]]}
         return sorted(set(["stratum:B", "mode:" + case["cell"]["mode"]] + _c07.features(c)))
